@@ -115,6 +115,38 @@ func largeFlatTrees(c *fw.Ctx, body func(tree *spec.Spec, r *rng.R)) {
 	})
 }
 
+// longStringTrees: strings and keys of 4 KiB ... 64 KiB made of multi-byte characters, behind 0..3 bytes of ASCII, so that
+// every block boundary a serializer or parser might work with (4096, 8192, 65536 bytes, of the value or of the output)
+// falls inside a character for some of them; now and then a character that needs escaping shifts the output.
+func longStringTrees(c *fw.Ctx, body func(tree *spec.Spec, r *rng.R)) {
+	chars := []string{string(rune(0xe9)), string(rune(0x20ac)), string(rune(0x1f600)), string(rune(0x2028)), string(rune(0x7ff)), string(rune(0xffff))}
+	sizes := []int{4096, 8192, 65536}
+	c.Cases("long-strings", len(chars)*len(sizes)*4, true, func(i int, r0 *rng.R) {
+		ch := chars[i%len(chars)]
+		size := sizes[(i/len(chars))%len(sizes)]
+		pre := i / (len(chars) * len(sizes))
+		if c.Arch386 && size > 8192 {
+			return
+		}
+		var b strings.Builder
+		b.WriteString("abc"[:pre])
+		for b.Len() < size+2*len(ch)+3 {
+			b.WriteString(ch)
+			if i%5 == 4 && b.Len()%1000 < len(ch) {
+				b.WriteString("\"\n")
+			}
+		}
+		long := b.String()
+		tree := spec.ListV(spec.StrV(long), spec.ObjV(long, spec.StrV("v"), "k", spec.StrV(long[pre:])), spec.StrV("tail"))
+		if i%2 == 1 {
+			half := "abc"[:pre] + strings.Repeat(ch, size/2/len(ch)+1) // (cut between characters, not inside one)
+			tree = spec.ObjV("a", spec.StrV(long), half, spec.ListV(spec.StrV(long)))
+		}
+		c.Add("long_string_bytes", int64(len(long)))
+		body(tree, nil)
+	})
+}
+
 // deepOutputTrees: chains far deeper than the random trees (serializer recursion, nested buffers).
 func deepOutputTrees(c *fw.Ctx, body func(tree *spec.Spec, r *rng.R)) {
 	depths := []int{40, 129, 1000, 5000}
@@ -147,6 +179,9 @@ func runC01(c *fw.Ctx) {
 		guard(c, func() string { return spec.Trunc(describeTree(tree), 300) }, func() { c01Case(c, tree, r) })
 	})
 	largeFlatTrees(c, func(tree *spec.Spec, r *rng.R) {
+		guard(c, func() string { return spec.Trunc(describeTree(tree), 300) }, func() { c01Case(c, tree, r) })
+	})
+	longStringTrees(c, func(tree *spec.Spec, r *rng.R) {
 		guard(c, func() string { return spec.Trunc(describeTree(tree), 300) }, func() { c01Case(c, tree, r) })
 	})
 	numericOrigins(c, func(tree *spec.Spec, r *rng.R) {
@@ -377,7 +412,7 @@ func runC02(c *fw.Ctx) {
 	forEachOutputTree(c, 4000, 2000000, c02Tree)
 	numericOrigins(c, c02Tree)
 	historyCases(c, "history", 600, 60000, probeJSONText)
-	for _, gen := range []func(*fw.Ctx, func(*spec.Spec, *rng.R)){deepOutputTrees, largeFlatTrees} {
+	for _, gen := range []func(*fw.Ctx, func(*spec.Spec, *rng.R)){deepOutputTrees, largeFlatTrees, longStringTrees} {
 		gen(c, func(tree *spec.Spec, r *rng.R) {
 			guard(c, func() string { return spec.Trunc(describeTree(tree), 300) }, func() {
 				real := drive.Build(r, tree)
@@ -422,6 +457,9 @@ func runC16(c *fw.Ctx) {
 	})
 	numericOrigins(c, func(tree *spec.Spec, r *rng.R) {
 		guard(c, func() string { return describeTree(tree) }, func() { c16Case(c, tree, r) })
+	})
+	longStringTrees(c, func(tree *spec.Spec, r *rng.R) {
+		guard(c, func() string { return spec.Trunc(describeTree(tree), 300) }, func() { c16Case(c, tree, r) })
 	})
 	historyCases(c, "history", 400, 40000, probeFormat)
 	// very long lines (a single string / key beyond 64 KiB) inside nested containers, a few indents only
